@@ -11,6 +11,16 @@ VERIF = os.path.dirname(os.path.dirname(os.path.abspath(__file__)))
 MC = "model_checking"
 
 CLAIMS = {
+    "C07": dict(
+        engine="NixDim",
+        technique="TLA+ spec NixDim (declarative order semantics) checked by TLC + replay of every TLC-exported vector against real dimension objects",
+        text="NixDim defines index_of / range_indices / position_at / axis declaratively as Max/Min of 'samples whose coordinate "
+             "satisfies the relation'; TLC checks RoundTrip, ModeMeaning, DecompOK (the code's two-call decomposition is equivalent "
+             "to the set definition), Contiguous and ExclusiveSubset on every vector and exports every (descriptor, query) vector; "
+             "each is executed on a real Sampled/Range/SetDimension in a scratch file. Exhaustive over the bounded grid domain.",
+        note="Trusted: TLC; grid of 1/4 makes all floats exact so np.isclose tolerances never decide; intervals > 0, start <= end; "
+             "unbounded descriptors approximated by index bound 64 (law BigEnough shows the bound is never reached).",
+        design_ref="6/C07"),
     "C09": dict(
         engine="NixUnits",
         technique="TLA+ spec NixUnits checked by TLC (laws on every vector) + replay of every TLC-exported vector against nixio.util.units",
